@@ -514,6 +514,8 @@ func (f *FnCtx) runTop() {
 	fr.sweepParamsReadOnly(st)
 	fr.sweepFreshDecode(st)
 	fr.checkContractParamsStable(st)
+	fr.sweepGlobalsReadOnly(st)
+	fr.sweepCopyLocks(st)
 	ret := fr.run(st)
 	if ret == nil {
 		return // never returns normally
@@ -2596,4 +2598,115 @@ func isConversionOf(v ssa.Value, p ssa.Value) bool {
 		}
 	}
 	return false
+}
+
+// sweep kind "globalsro": the function does not assign to package-level variables of the module (directly or
+// through a pointer it took to one): configuration defaults and tables declared at package level are shared by
+// every client, server and request of the process.  Structural; package initialisers are exempt.
+func (fr *frame) sweepGlobalsReadOnly(st *bstate) {
+	f := fr.f
+	if !f.sweep["globalsro"] || f.dry {
+		return
+	}
+	root := fr.fn
+	for root.Parent() != nil {
+		root = root.Parent()
+	}
+	if root.Name() == "init" || strings.HasPrefix(root.Name(), "init#") {
+		return
+	}
+	var base func(v ssa.Value, depth int) *ssa.Global
+	base = func(v ssa.Value, depth int) *ssa.Global {
+		if depth > 6 {
+			return nil
+		}
+		switch x := v.(type) {
+		case *ssa.Global:
+			return x
+		case *ssa.FieldAddr:
+			return base(x.X, depth+1)
+		case *ssa.IndexAddr:
+			return base(x.X, depth+1)
+		case *ssa.Phi:
+			for _, e := range x.Edges {
+				if g := base(e, depth+1); g != nil {
+					return g
+				}
+			}
+		case *ssa.UnOp:
+			// a pointer kept in a local variable: what was stored there
+			if a, ok := x.X.(*ssa.Alloc); ok && x.Op == token.MUL && a.Referrers() != nil {
+				for _, r := range *a.Referrers() {
+					if st, ok := r.(*ssa.Store); ok && st.Addr == ssa.Value(a) {
+						if g := base(st.Val, depth+1); g != nil {
+							return g
+						}
+					}
+				}
+			}
+		}
+		return nil
+	}
+	for _, b := range fr.fn.Blocks {
+		for _, in := range b.Instrs {
+			s, ok := in.(*ssa.Store)
+			if !ok {
+				continue
+			}
+			g := base(s.Addr, 0)
+			if g == nil || g.Pkg == nil || !inModule(g.Pkg.Pkg) {
+				continue
+			}
+			f.oblige(st, fmt.Sprintf("%s#package-level-variable-not-written:%s", fnShortName(fr.fn), g.Name()), "safety", f.sweepTags, "false",
+				"the package-level variable "+g.Name()+" is assigned to outside package initialisation", posStr(f.e.fset, s.Pos()))
+		}
+	}
+}
+
+// sweep kind "copylocks": no method has a value receiver, and no function a by-value parameter, of a struct
+// type that contains a mutex or an atomic cell: every call would copy the lock (readers then lock a private
+// copy and are not excluded from writers) and read the other fields without synchronisation.  Structural.
+func (fr *frame) sweepCopyLocks(st *bstate) {
+	f := fr.f
+	if !f.sweep["copylocks"] || f.dry || fr.fn.Parent() != nil {
+		return
+	}
+	var hasLock func(t types.Type, depth int) bool
+	hasLock = func(t types.Type, depth int) bool {
+		if depth > 4 {
+			return false
+		}
+		if n, ok := t.(*types.Named); ok && n.Obj().Pkg() != nil {
+			switch n.Obj().Pkg().Path() + "." + n.Obj().Name() {
+			case "sync.Mutex", "sync.RWMutex", "sync.WaitGroup", "sync.Once", "sync.Cond", "sync.Map",
+				"sync/atomic.Bool", "sync/atomic.Int32", "sync/atomic.Int64", "sync/atomic.Uint32", "sync/atomic.Uint64", "sync/atomic.Value":
+				return true
+			}
+		}
+		if stt, ok := t.Underlying().(*types.Struct); ok {
+			for i := 0; i < stt.NumFields(); i++ {
+				if hasLock(stt.Field(i).Type(), depth+1) {
+					return true
+				}
+			}
+		}
+		return false
+	}
+	sig := fr.fn.Signature
+	check := func(v *types.Var, what string) {
+		if v == nil {
+			return
+		}
+		if _, isPtr := v.Type().Underlying().(*types.Pointer); isPtr {
+			return
+		}
+		if _, isStruct := v.Type().Underlying().(*types.Struct); isStruct && hasLock(v.Type(), 0) {
+			f.oblige(st, fmt.Sprintf("%s#lock-not-copied:%s", fnShortName(fr.fn), what), "safety", f.sweepTags, "false",
+				what+" of type "+v.Type().String()+" is passed by value: the call copies a lock", posStr(f.e.fset, fr.fn.Pos()))
+		}
+	}
+	check(sig.Recv(), "receiver")
+	for i := 0; i < sig.Params().Len(); i++ {
+		check(sig.Params().At(i), "parameter "+sig.Params().At(i).Name())
+	}
 }
